@@ -16,6 +16,19 @@ Proof. intros p zod w w'. unfold gen. rewrite (repaired_indep p w w'). reflexivi
 Theorem viz_independent : forall p w w', viz w p = viz w' p.
 Proof. intros p w w'. unfold viz. rewrite (repaired_indep p w w'). reflexivity. Qed.
 
+(* flags: the bindings do not depend on them, the graph files appear exactly with --visualize-deps,
+   and nothing depends on the hash orders *)
+Theorem flags_thm : forall p zod fl fl' w w',
+  option_map fst (run_files fl zod w p) = option_map fst (run_files fl' zod w' p) /\
+  (forall o v, run_files fl zod w p = Some (o, v) -> (v <> None <-> f_visualize fl = true)) /\
+  run_files fl zod w p = run_files fl zod w' p.
+Proof. intros p zod fl fl' w w'. unfold run_files. rewrite (order_independent p zod w w'), (viz_independent p w w').
+  destruct (gen zod w' p) as [o|]; cbn [option_map fst].
+  - split; [reflexivity|]. split; [|reflexivity]. intros o0 v E. inversion E; subst.
+    destruct (f_visualize fl); split; intros H; try reflexivity; try discriminate.
+    exfalso. apply H. reflexivity.
+  - split; [reflexivity|]. split; [|reflexivity]. intros o v E. discriminate. Qed.
+
 (* ---------------- noise ---------------- *)
 Lemma flat_map_filter_nil {A B} (h : A -> list B) (keep : A -> bool) l :
   (forall a, keep a = false -> h a = []) -> flat_map h (filter keep l) = flat_map h l.
@@ -73,9 +86,9 @@ Proof. intros f p zod w w' H Hd He. destruct (noise_file_contrib f H) as (H1 & H
 
 (* ---------------- witnesses ---------------- *)
 Definition mk_cmd (n : name) (roots : list name) : item :=
-  ICmd {| c_name := n; c_roots := roots; c_params := negb (match roots with [] => true | _ => false end); c_chans := false |} [].
+  ICmd {| c_name := n; c_roots := roots; c_pnames := map (fun r => 100 + r) roots; c_cnames := [] |} [].
 Definition mk_type (n : name) (deps : list name) (body : nat) : item :=
-  IType {| t_name := n; t_deps := deps; t_body := body; t_enum := false |}.
+  IType {| t_name := n; t_deps := deps; t_body := body; t_enum := false; t_fields := [200 + body; 300] |}.
 Definition mk_ev (e : name) (roots : list name) (pay : nat) : ev := {| e_name := e; e_roots := roots; e_pay := pay |}.
 Definition w_of (files : list name) : omega :=
   {| w_files := files; w_used := []; w_req := []; w_deps := []; w_res := []; w_dmap := [] |}.
@@ -91,7 +104,7 @@ Definition p_dupevent_swapped : project := [(1, [mk_cmd 1 []; IFn [mk_ev 1 [] 1]
 Theorem move_dupdef_refuted :
   exists p p' w o o', Permutation (all_items p) (all_items p') /\ kf_dupdef p = true /\ kf_dupevent p = false /\
     gen false w p = Some o /\ gen false w p' = Some o' /\
-    In (DType 1 0) (o_types o') /\ ~ In (DType 1 0) (o_types o).
+    In (DType 1 0 [200; 300]) (o_types o') /\ ~ In (DType 1 0 [200; 300]) (o_types o).
 Proof. exists p_dupdef, p_dupdef_moved, (w_of [2; 1]). eexists. eexists.
   split. { cbn. apply perm_trans with (l' := [mk_cmd 1 [1]; mk_type 1 [] 0; mk_type 1 [] 1]).
            apply perm_swap. apply perm_trans with (l' := [mk_cmd 1 [1]; mk_type 1 [] 1; mk_type 1 [] 0]).
